@@ -223,6 +223,8 @@ struct Bounds {
     /// additional stream length used only where connections == 1 and chunking == one-write
     /// (all entry points x all close orders); None: no such restriction-bound length
     tcp_len_window: Option<usize>,
+    /// the real-time UDP scenarios (steady sender, idle client) are part of the matrix
+    slow_udp: bool,
     concs: Vec<usize>,
     udp_lens: Vec<usize>,
     deadline_s: u64,
@@ -233,10 +235,10 @@ fn bounds(args: &Args) -> Bounds {
     // the default receive window is 512 frames and the bridges read at most 8 KiB per frame, so
     // 512 * 8 KiB = 4 MiB is the least stream length that certainly needs a window update
     if args.thorough() {
-        Bounds { tcp_lens: vec![0, 1, 4099, 3 * 512 * 8192 + 5], tcp_len_window: None, concs: vec![1, 3, 5], udp_lens: vec![0, 1, 2, 3, 4, 5, 1400, 1472, 9000, 65000], deadline_s: 40, parallel: args.threads.clamp(1, 8) }
+        Bounds { tcp_lens: vec![0, 1, 4099, 3 * 512 * 8192 + 5], tcp_len_window: None, slow_udp: true, concs: vec![1, 3, 5], udp_lens: vec![0, 1, 2, 3, 4, 5, 1400, 1472, 9000, 65000], deadline_s: 40, parallel: args.threads.clamp(1, 8) }
     } else {
         // 70001 B: nine 8 KiB frames, everywhere; 4198403 B (one window + 4099 B: needs a window update): sub-matrix
-        Bounds { tcp_lens: vec![0, 1, 70001], tcp_len_window: Some(512 * 8192 + 4099), concs: vec![1, 3], udp_lens: vec![0, 1, 3, 4, 1400], deadline_s: 30, parallel: args.threads.clamp(1, 8) }
+        Bounds { tcp_lens: vec![0, 1, 70001], tcp_len_window: Some(512 * 8192 + 4099), slow_udp: false, concs: vec![1, 3], udp_lens: vec![0, 1, 3, 4, 1400], deadline_s: 30, parallel: args.threads.clamp(1, 8) }
     }
 }
 
@@ -276,6 +278,13 @@ fn matrix(b: &Bounds) -> Vec<Case> {
             }
         }
     }
+    if b.slow_udp {
+        for kind in UKind::ALL {
+            for topo in Topo::SLOW {
+                v.push(Case::Udp(UdpCase { kind, size: udp::SLOW_LEN, topo }));
+            }
+        }
+    }
     v
 }
 
@@ -283,6 +292,7 @@ fn matrix(b: &Bounds) -> Vec<Case> {
 fn weight(c: &Case) -> usize {
     match c {
         Case::Tcp(t) => (t.c2t + t.t2c) * t.conc + 1,
+        Case::Udp(u) if u.topo.slow() => usize::MAX,
         Case::Udp(_) => usize::MAX / 2,
     }
 }
@@ -404,7 +414,10 @@ pub fn run(args: &Args) -> Report {
     let iso_cap: u64 = if args.thorough() { 8 } else { 4 };
 
     std::thread::scope(|s| {
-        for w in 0..b.parallel {
+        // the real-time scenarios sleep nearly all of their 20+ seconds: they get threads of their
+        // own (they are first in the queue), so that `parallel` scenarios that do work stay in flight
+        let n_slow = cases.iter().filter(|c| matches!(c, Case::Udp(u) if u.topo.slow())).count();
+        for w in 0..b.parallel + n_slow {
             let (cases, env, tally, next, iso, confirmed, degraded, rep_m, sums, b, done_cases) = (&cases, &env, &tally, &next, &iso, &confirmed, &degraded, &rep_m, &sums, &b, &done_cases);
             std::thread::Builder::new()
                 .name(format!("c01-pool{w}"))
@@ -545,7 +558,7 @@ pub fn run(args: &Args) -> Report {
         None => format!("L = {:?} for every combination", b.tcp_lens),
         Some(w) => format!("L = {:?} for every combination, and L = {:?} (adds the window-exceeding length {w}) for the sub-matrix connections = 1 AND chunking = one-write (all 7 entry points, all 5 close orders)", b.tcp_lens, b.tcp_lens.iter().copied().chain([w]).collect::<Vec<_>>()),
     };
-    rep.rule = format!("complete product, every point enumerated (no sampling): TCP = entry point (7) x connections {:?} x chunking (3) x [close order (4) x client->target length in L x target->client length in L + target-refuses x client->target length in L], where {len_rule}; UDP = entry (UDP remote, SOCKS5 UDP with IPv4 header, with domain header) x topology (1 client, 3 clients, 1 socket to 2 entry points; SOCKS5 only: 1 association alternating between 2 targets with the same host string and different ports, and between 2 targets with different host strings 127.0.0.1/127.0.0.2 and the same port) x payload length, 3 request/reply exchanges per leg; one execution per point (more only after a lost port race or a deadline hit); a case is distinct when its parameter tuple is distinct", b.concs);
+    rep.rule = format!("complete product, every point enumerated (no sampling): TCP = entry point (7) x connections {:?} x chunking (3) x [close order (4) x client->target length in L x target->client length in L + target-refuses x client->target length in L], where {len_rule}; UDP = entry (UDP remote, SOCKS5 UDP with IPv4 header, with domain header) x topology (1 client, 3 clients, 1 socket to 2 entry points; SOCKS5 only: 1 association alternating between 2 targets with the same host string and different ports, and between 2 targets with different host strings 127.0.0.1/127.0.0.2 and the same port) x payload length, 3 request/reply exchanges per leg{}; one execution per point (more only after a lost port race or a deadline hit); a case is distinct when its parameter tuple is distinct", b.concs, if b.slow_udp { format!("; plus the real-time scenarios: UDP entry (3) x [steady sender: 1 datagram of {} bytes per second for 2*UDP_PRUNE_TIMEOUT+3 = {} s to a silent target, which then answers the last one | idle: one exchange, {} s of silence, one more exchange]", udp::SLOW_LEN, 2 * udp::prune_timeout().as_secs() + 3, 2 * udp::prune_timeout().as_secs() + 1) } else { String::new() });
     rep.bounds.insert("tcp_entry_points".into(), json!(Entry::ALL.iter().map(|e| e.name()).collect::<Vec<_>>()));
     rep.bounds.insert("tcp_payload_lengths".into(), json!(b.tcp_lens));
     rep.bounds.insert("tcp_payload_length_only_for_1_connection_one_write".into(), json!(b.tcp_len_window));
@@ -556,6 +569,8 @@ pub fn run(args: &Args) -> Report {
     rep.bounds.insert("udp_topologies".into(), json!(Topo::ALL.iter().map(|e| e.name()).collect::<Vec<_>>()));
     rep.bounds.insert("udp_payload_lengths".into(), json!(b.udp_lens));
     rep.bounds.insert("udp_exchanges_per_leg".into(), json!(udp::EXCHANGES));
+    rep.bounds.insert("udp_real_time_scenarios".into(), json!(if b.slow_udp { Topo::SLOW.iter().map(|t| t.name()).collect::<Vec<_>>() } else { Vec::new() }));
+    rep.bounds.insert("udp_prune_timeout_s".into(), json!(udp::prune_timeout().as_secs()));
     rep.bounds.insert("tcp_cases".into(), json!(n_tcp));
     rep.bounds.insert("udp_cases".into(), json!(n_udp));
     rep.bounds.insert("deadline_s".into(), json!(b.deadline_s));
